@@ -30,6 +30,9 @@ def is_zero_mod(p: P, rules) -> bool:
     return num.is_zero()
 
 
+from .generic import computed_return
+
+
 def volume_hook(mod):
     """inline self.volume() and single-return properties of UnitCell."""
     fn = mod.func("UnitCell.volume")
@@ -38,7 +41,8 @@ def volume_hook(mod):
         ca = callee.as_atom()
         if ca and ca[0] == "attr" and ca[1].key() == "self" and ca[2] == "volume" and not args:
             sub = Ev(fn, mod.ctx, attr_hook=property_hook(mod, "UnitCell")).run()
-            return sub.returns[0].value
+            from .generic import computed_return
+            return computed_return(sub).value
         # other zero-argument helper methods with a single return (e.g. a closed-form inverse factored out of the setter)
         if ca and ca[0] == "attr" and ca[1].key() == "self" and not args and not kwargs and ca[2] not in ("_set_cell_type",):
             f2 = mod.funcs.get(f"UnitCell.{ca[2]}")
@@ -201,7 +205,7 @@ def r12_1_path(chk, uc, ev, D, I, rules, tag, syms, node, first=True):
         vv = uc.ev("UnitCell.volume", attr_hook=property_hook(uc, "UnitCell"))
         chk.saw(UC, "UnitCell.volume")
         chk.ob("R12.1", UC, "UnitCell.volume", "volume = abc sqrt(1 - ca^2 - cb^2 - cg^2 + 2 ca cb cg)",
-               is_zero_mod(vv.returns[0].value - V, rules), expected=str(V), found=str(vv.returns[0].value))
+               is_zero_mod(computed_return(vv).value - V, rules), expected=str(V), found=str(computed_return(vv).value))
     for i in range(3):
         for j in range(3):
             s = P.const(0)
